@@ -778,4 +778,75 @@ theorem go_append : ∀ (pre r : List (Name × Nat)) (st : List Name), r ≠ [] 
     rw [List.cons_append, hct, go_cons_cons, ← hct, stackAfter]
     exact go_append pre r _ hr
 
+/-! ### segments with dots inside brackets -/
+
+/-- the remainder text: the pieces, each followed by a dot, then `tail` -/
+def rjoin (ps : List Name) (tail : Name) : Name := ps.foldr (fun p t => p ++ '.' :: t) tail
+
+/-- `acc` with the pieces appended, each after a dot (what the balancing loop has assembled) -/
+def accAfter (acc : Name) (ps : List Name) : Name := ps.foldl (fun a p => a ++ '.' :: p) acc
+
+theorem rjoin_length (ps : List Name) (tail : Name) : ps.length ≤ (rjoin ps tail).length := by
+  induction ps with
+  | nil => simp [rjoin]
+  | cons p r ih =>
+    simp only [rjoin, List.foldr_cons, List.length_append, List.length_cons] at ih ⊢
+    omega
+
+/-- **the bracket-balancing loop joins exactly as many dot-separated pieces as it takes to balance the
+brackets**: if the text assembled so far is unbalanced before each of the pieces `ps` and balanced after
+the last one, the loop returns it whole, with the untouched `tail` as the rest. -/
+theorem balance_pieces : ∀ (ps : List Name) (acc tail : Name) (n : Nat),
+    (∀ p ∈ ps, '.' ∉ p) →
+    (∀ i, i < ps.length → balanced (accAfter acc (ps.take i)) = false) →
+    balanced (accAfter acc ps) = true → ps.length + 1 ≤ n →
+    balance n acc (rjoin ps tail) = .ok (accAfter acc ps, tail)
+  | [], acc, tail, n, _, _, hb, hn => by
+    obtain ⟨m, rfl⟩ : ∃ m, n = m + 1 := ⟨n - 1, by simp at hn; omega⟩
+    simp only [accAfter, List.foldl_nil] at hb
+    simp [balance, hb, rjoin, accAfter]
+  | p :: r, acc, tail, n, hp, hu, hb, hn => by
+    obtain ⟨m, rfl⟩ : ∃ m, n = m + 1 := ⟨n - 1, by simp at hn; omega⟩
+    have h0 : balanced acc = false := by simpa [accAfter] using hu 0 (by simp)
+    have hpd : '.' ∉ p := hp p (by simp)
+    have hne : rjoin (p :: r) tail ≠ [] := by simp [rjoin]
+    have hsplit : splitDot (rjoin (p :: r) tail) = some (p, rjoin r tail) := by
+      simp only [rjoin, List.foldr_cons]
+      exact splitDot_seg p _ hpd
+    simp only [balance, h0, Bool.false_eq_true, if_false, hne, hsplit]
+    have ih := balance_pieces r (acc ++ '.' :: p) tail m (fun q hq => hp q (by simp [hq]))
+      (fun i hi => by
+        have := hu (i + 1) (by simp; omega)
+        simpa [accAfter, List.take_succ_cons] using this)
+      (by simpa [accAfter] using hb) (by simp at hn ⊢; omega)
+    simpa [accAfter] using ih
+
+/-- **`_resolve` splits the first segment off where its brackets balance**, whatever dots the index
+expression contains (`a[a[0].b-1].b` → `a[a[0].b-1]` and `b`): for a key without `..` that starts with
+a piece `p0` containing `[`, continues with the pieces `ps` and then `tail`. -/
+theorem resolve_bracketed (fixed : Bool) (p0 : Name) (ps : List Name) (tail : Name)
+    (h0 : p0 ≠ []) (h0d : '.' ∉ p0) (h0b : '[' ∈ p0) (hp : ∀ p ∈ ps, '.' ∉ p)
+    (hu : ∀ i, i < ps.length → balanced (accAfter p0 (ps.take i)) = false)
+    (hb : balanced (accAfter p0 ps) = true)
+    (hdd : dotdotStep (p0 ++ '.' :: rjoin ps tail) = none) :
+    resolve fixed (p0 ++ '.' :: rjoin ps tail) = .ok (accAfter p0 ps, some tail) := by
+  have he : elimDotDot (p0 ++ '.' :: rjoin ps tail) = p0 ++ '.' :: rjoin ps tail := dotdotLoop_fix _ _ hdd
+  simp only [resolve, he]
+  cases p0 with
+  | nil => exact absurd rfl h0
+  | cons c s =>
+    have hc : c ≠ '.' := fun e => h0d (by simp [e])
+    simp only [List.cons_append, lead, hc, if_false]
+    rw [← List.cons_append, splitDot_seg (c :: s) _ h0d]
+    simp only [h0b, if_true]
+    rw [balance_pieces ps (c :: s) tail _ hp hu hb (by have := rjoin_length ps tail; omega)]
+    have hne : accAfter (c :: s) ps ≠ [] := by
+      have : ∀ (l : List Name) (a : Name), a ≠ [] → accAfter a l ≠ [] := by
+        intro l
+        induction l with
+        | nil => intro a ha; simpa [accAfter] using ha
+        | cons q r ih => intro a ha; simp only [accAfter, List.foldl_cons]; exact ih _ (by simp)
+      exact this ps _ (by simp)
+    simp [Except.map, hne]
+
 end Cpppo.Dotdict
